@@ -6,6 +6,7 @@ import (
 	"runtime"
 	"strings"
 	"sync"
+	"sync/atomic"
 	"time"
 
 	"github.com/netflix/rend/handlers"
@@ -25,7 +26,7 @@ func init() {
 func checkC17(tier, replay string) int {
 	run := evid.NewRun("C17", tier, "exploration")
 	run.Rule("inmem.New(): (a) sequential differential against the reference map over random sequences of all handler methods (relative TTLs; expiry scenarios use TTL 1 + a 2.1 s sleep for 'must be absent' and TTL >= 1000 for 'must be present'); " +
-		"(b) 2..32 goroutines sharing the singleton under the race detector, mixing reads of missing keys, reads of own keys and writes: the child's exit status, its stderr (fatal error / race reports) and per-goroutine exact models are the monitors. " +
+		"(b) in a fresh process 8..32 goroutines construct the backend at the same moment (first use) and must see each other's keys; then 2..32 goroutines sharing the singleton under the race detector, mixing reads of missing keys, reads of own keys and writes: the child's exit status, its stderr (fatal error / race reports) and per-goroutine exact models are the monitors. " +
 		"distinct_nontrivial = distinct op-kind sequences + distinct (goroutines, repeat) concurrent runs")
 	run.Assume("inmem documents relative TTLs only; keys are namespaced per case because the singleton cannot be reset")
 	res := spawnChild(run, "C17seq", 10*time.Minute, nil)
@@ -272,7 +273,44 @@ func childC17Conc(args []string) int {
 	fmt.Sscan(args[0], &ng)
 	fmt.Sscan(args[1], &nops)
 	fmt.Sscan(args[2], &rep)
-	h := newInmem()
+	// the first constructions of the backend in this process happen at the same moment on
+	// several goroutines (a server with two listeners accepting their first connections): every
+	// connection must end up on the one shared instance
+	nfirst := maxInt(ng, 8)
+	firstH := make([]handlers.Handler, nfirst)
+	{
+		var gate int32
+		var fw sync.WaitGroup
+		release := make(chan struct{})
+		for gi := 0; gi < nfirst; gi++ {
+			fw.Add(1)
+			go func(gi int) {
+				defer fw.Done()
+				atomic.AddInt32(&gate, 1)
+				<-release
+				firstH[gi] = newInmem()
+				handlerExec(firstH[gi], wire.Cmd{Op: "set", Key: fmt.Sprintf("first.%d.%d", rep, gi), Value: []byte(fmt.Sprint("v", gi)), Flags: uint32(gi)}, 0)
+			}(gi)
+		}
+		for atomic.LoadInt32(&gate) < int32(nfirst) {
+			runtime.Gosched()
+		}
+		close(release)
+		fw.Wait()
+		run.Count("concurrent_first_constructions", int64(nfirst))
+	first:
+		for gi := 0; gi < nfirst; gi++ {
+			for other := 0; other < nfirst; other++ {
+				r := handlerExec(firstH[gi], wire.Cmd{Op: "get", Keys: []string{fmt.Sprintf("first.%d.%d", rep, other)}, Opaque: 1}, 0)
+				if len(r.Values) != 1 || string(r.Values[0].Data) != fmt.Sprint("v", other) {
+					run.Violation("inmem|concurrent|backends constructed at the same moment do not share their data (a key set through one connection is missing through another)",
+						map[string]interface{}{"constructed_concurrently": nfirst, "reader": gi, "writer": other, "observed": brief(r)})
+					break first
+				}
+			}
+		}
+	}
+	h := firstH[0]
 	now := func() uint32 { return uint32(time.Now().Unix()) }
 	// entries that have expired but are still in the map: reads of them must behave like reads
 	// of missing keys, also when many goroutines read them at once
